@@ -18,14 +18,14 @@ def solver_options(tol=1e-10, max_iter=1000):
                          newton_max_iter=50)
 
 
-def _rb(name, r, v=(0, 0, 0), om=(0, 0, 0), mass=1.0, p=(1, 0, 0, 0)):
+def _rb(name, r, v=(0, 0, 0), om=(0, 0, 0), mass=1.0, p=(1, 0, 0, 0), theta=(1.0, 1.0, 1.0)):
     from cardillo.discrete import RigidBody
 
-    th = 0.4 * mass * R * R  # spherical inertia: no gyroscopic force
+    th = 0.4 * mass * R * R  # spherical inertia (theta = (1,1,1)): no gyroscopic force
     p = np.asarray(p, float)
     q0 = np.concatenate([np.asarray(r, float), p / np.linalg.norm(p)])
     u0 = np.concatenate([np.asarray(v, float), np.asarray(om, float)])
-    return RigidBody(mass, th * np.eye(3), q0, u0, name=name)
+    return RigidBody(mass, th * np.diag(np.asarray(theta, float)), q0, u0, name=name)
 
 
 def _pm(name, r, v=(0, 0, 0), mass=1.0):
@@ -50,6 +50,7 @@ SCENES = {
     "pm_drop": dict(force_free=False, contacts=1, what="point mass with contact radius dropped on the plane with tangential velocity"),
     "rb_rest": dict(force_free=False, contacts=1, what="rigid ball resting on the plane"),
     "rb_slide": dict(force_free=False, contacts=1, what="rigid ball touching the plane, sliding without spin (slip -> roll transition)"),
+    "rb_aniso_slide": dict(force_free=False, contacts=1, what="body with principal inertias 1:4:2.5 and a spherical contact surface sliding at an angle to its principal axes (the two tangential entries of diag(W_F^T M^-1 W_F) differ)"),
     "rb_incline": dict(force_free=False, contacts=1, what="rigid ball at rest on a plane inclined by 20 degrees (rotated frame)"),
     "pm_incline": dict(force_free=False, contacts=1, what="point mass sliding down/along a plane inclined by 20 degrees (rotated frame)"),
     "rb_moving_plane": dict(force_free=False, contacts=1, what="rigid ball dropped on a plane that oscillates vertically and horizontally (explicit time dependence: g_N_dot(t,q,0) != 0)"),
@@ -82,6 +83,9 @@ def build(scene, e_N, mu, t0=0.0, options=None):
         system.add(b, Force(1.0 * grav, b, name="grav"), Sphere2Plane(system.origin, b, mu=mu, r=R, e_N=e_N, e_F=e_F, name="floor"))
     elif scene == "rb_slide":
         b = _rb("ball", (0, 0, R), v=(0.8, 0.3, 0.0), p=(1.0, 0.2, -0.3, 0.1))
+        system.add(b, Force(1.0 * grav, b, name="grav"), Sphere2Plane(system.origin, b, mu=mu, r=R, e_N=e_N, e_F=e_F, name="floor"))
+    elif scene == "rb_aniso_slide":
+        b = _rb("ball", (0, 0, R), v=(1.0, 0.7, 0.0), theta=(1.0, 4.0, 2.5))
         system.add(b, Force(1.0 * grav, b, name="grav"), Sphere2Plane(system.origin, b, mu=mu, r=R, e_N=e_N, e_F=e_F, name="floor"))
     elif scene in ("rb_incline", "pm_incline"):
         A = _incline_A()
